@@ -27,3 +27,15 @@ MM(2,2) MM(3,2) MM(2,3) MM(3,3)      // rank-1 operands do not compile with fixe
   return observe(view::matmulv2(a,b), idx, nidx, oshape, odim, out); }
 MM2(2,2) MM2(1,2) MM2(2,1) MM2(3,2)
 #endif
+
+#ifndef V2ONLY
+// operands of DIFFERENT element types: uint8 (values as given) on one side, unsigned short (value = 256 + byte, so that a result narrowed to 8 bits is visibly wrong) on the other;
+// the element type of the product is the C common type (int after promotion): the sum is reported as unsigned 32-bit, *esz = sizeof(element type of the view)
+static inline bool mk2w(hyb_t<unsigned short,16,2>& b, const size_t* s, const u8* d){ if (!b.resize(s[0],s[1])) return false; size_t n = nm::size(b); for (size_t i = 0; i < n && i < 16; i++) b.data_[i] = (unsigned short)(256 + d[i]); return true; }
+KERNEL int K(k_matmul_mixed_nw)(const size_t* sa, const u8* da, const size_t* sb, const u8* db, const size_t* idx, size_t nidx, size_t* oshape, size_t* odim, unsigned* out, size_t* esz){
+  h_t<2> a; hyb_t<unsigned short,16,2> b; if (!mkd(a,sa,da) || !mk2w(b,sb,db)) return -1; auto v = view::matmul(a,b);
+  *esz = sizeof(meta::get_element_type_t<meta::remove_cvref_t<decltype(nm::unwrap(v))>>); return observe(v, idx, nidx, oshape, odim, out); }
+KERNEL int K(k_matmul_mixed_wn)(const size_t* sa, const u8* da, const size_t* sb, const u8* db, const size_t* idx, size_t nidx, size_t* oshape, size_t* odim, unsigned* out, size_t* esz){
+  hyb_t<unsigned short,16,2> a; h_t<2> b; if (!mk2w(a,sa,da) || !mkd(b,sb,db)) return -1; auto v = view::matmul(a,b);
+  *esz = sizeof(meta::get_element_type_t<meta::remove_cvref_t<decltype(nm::unwrap(v))>>); return observe(v, idx, nidx, oshape, odim, out); }
+#endif
